@@ -2,6 +2,7 @@ package main
 
 import (
 	"bytes"
+	"time"
 	"fmt"
 	"io"
 	"runtime"
@@ -189,9 +190,77 @@ func opConcStream(a []string) string {
 	return "ok"
 }
 
+// concver <fam> <opts> <d> <p> <size> <n> <ms>: n goroutines call Verify (and some Encode) on ONE encoder, each on its own
+// valid shard set, for ms milliseconds; every verdict must be (true, nil)
+func opConcVer(a []string) string {
+	fam, opts, d, p, size, n, ms := a[0], a[1], atoi(a[2]), atoi(a[3]), atoi(a[4]), atoi(a[5]), atoi(a[6])
+	enc, err := newEnc(fam, d, p, opts)
+	if err != nil {
+		return "err " + errClass(err)
+	}
+	var wrong int32
+	var calls int64
+	var wg sync.WaitGroup
+	start := make(chan struct{})
+	deadline := make(chan struct{})
+	for g := 0; g < n; g++ {
+		wg.Add(1)
+		go func(g int) {
+			defer wg.Done()
+			sh := mkShards(d, p, size, uint64(500+g))
+			if err := enc.Encode(sh); err != nil {
+				atomic.StoreInt32(&wrong, 2)
+				return
+			}
+			<-start
+			for {
+				select {
+				case <-deadline:
+					return
+				default:
+				}
+				ok, err := enc.Verify(sh)
+				atomic.AddInt64(&calls, 1)
+				if err != nil || !ok {
+					atomic.StoreInt32(&wrong, 1)
+					return
+				}
+				if g%4 == 3 {
+					if err := enc.Encode(sh); err != nil {
+						atomic.StoreInt32(&wrong, 2)
+						return
+					}
+				}
+			}
+		}(g)
+	}
+	close(start)
+	timer := make(chan struct{})
+	go func() {
+		t0 := nowMs()
+		for nowMs()-t0 < int64(ms) && atomic.LoadInt32(&wrong) == 0 {
+			runtime.Gosched()
+		}
+		close(timer)
+	}()
+	<-timer
+	close(deadline)
+	wg.Wait()
+	switch atomic.LoadInt32(&wrong) {
+	case 1:
+		return "verify-false-on-valid-set"
+	case 2:
+		return "encode-error"
+	}
+	return "ok"
+}
+
 func init() {
+	extraOps["concver"] = opConcVer
 	extraOps["conc"] = opConc
 	extraOps["concread"] = opConcRead
 	extraOps["concstream"] = opConcStream
 	_ = rs.ErrShardSize
 }
+
+func nowMs() int64 { return time.Now().UnixNano() / 1e6 }
